@@ -934,6 +934,11 @@ def m_mask_op(I, fr, st, t, args, key):
         st.ghost['lanes'] = g
         return ret1(st, IntV(V(o)))
     if name == 'count_ones':
+        from . import e3
+        leaf = e3.cmpeq_leaf(nz_strip(ts[0])) if ts[0] is not None else None
+        if leaf is not None and 'search' in st.ghost:
+            n, r, off, size = leaf
+            return ret1(st, IntV(e3.count_of(I, st, r, n, off, off + size)))     # axiom: popcount of the lane mask
         w = mask_width(ts[0]) or 32
         o = fresh('cnt')
         st.store.add_range(V(o), 0, w)
